@@ -205,11 +205,13 @@ row(props=["C12"], func=API + "(JavaAPIListener).EnterAnnotation", params=["s", 
     what="the base path is taken from the class-level annotations, whatever their order (@RequestMapping may precede @RestController)")
 
 # ------------------------------------------------------------------ C01 / C02 / C17 extras
+RELC = 'call("path/filepath.Rel", call("deref", free_codeDir), path)'
+RELP = 'ite(call("extract1", %s) != nil, path, call("extract0", %s))' % (RELC, RELC)
 row(props=["C01"], func="pkg/adapter/cocafile.GetFilesWithFilter$1", params=["path", "fi", "err"], kind="returns", expr="nil",
     what="the directory walk is never cut short: the callback returns nil for every entry")
 row(props=["C01"], func="pkg/adapter/cocafile.GetFilesWithFilter$1", params=["path", "fi", "err"], kind="emits", target="free:files", tag={}, total=1,
-    when='!(call("deref", free_gitIgnore) != nil && call("github.com/sabhiram/go-gitignore.(GitIgnore).MatchesPath", call("deref", free_gitIgnore), path)) && !contains(path, "testData") && call("dyn", call("deref", free_filter), path)',
-    fields={"<elem>": "path"}, what="a file is selected ⇔ not git-ignored, not under testData, accepted by the filter")
+    when='!(call("deref", free_gitIgnore) != nil && call("github.com/sabhiram/go-gitignore.(GitIgnore).MatchesPath", call("deref", free_gitIgnore), ' + RELP + ')) && !contains(path, "testData") && call("dyn", call("deref", free_filter), path)',
+    fields={"<elem>": "path"}, what="a file is selected ⇔ not ignored (the ignore file's patterns apply to the path relative to the analysed directory), not under testData, accepted by the filter")
 TT = "pkg/infrastructure/ast/ast_java."
 row(props=["C02"], func=TT + "ParseTargetType", params=["t"], kind="returns",
     expr='ite(hasSuffix(String(call("reflect.TypeOf", t)), "MethodCallContext"), global("%scurrentClz"), ite(lookup(global("%smapFields"), t) != "", lookup(global("%smapFields"), t), ite(lookup(global("%sformalParameters"), t) != "", lookup(global("%sformalParameters"), t), ite(lookup(global("%slocalVars"), t) != "", lookup(global("%slocalVars"), t), t))))' % ((TT,) * 7),
